@@ -343,14 +343,18 @@ func CheckMaskedScan(run *report.Run, p *load.Program, ruleID string) []ScanResu
 				}
 				switch {
 				case len(g.Blocks) == 0:
+					// the Go wrapper (|x|, delegation, sign mask) is decided here,
+					// the scan itself is assembly (E-ASM)
 					r.Status = "assembly"
 					if a, ok := isArrayPtr(tbl.Type()); ok {
 						r.Entries = a.Len()
 					}
+					ru.OK(construct + " (wrapper; scan in assembly)")
 					res = append(res, r)
 					continue
 				case errG != nil && isStub(g, errG):
 					r.Status = "stub"
+					ru.OK(construct + " (wrapper; vector-only stub)")
 					res = append(res, r)
 					continue
 				}
